@@ -44,6 +44,15 @@ def build_real(spec, akai):
     if akai:
         from smpl_extract.akai.image import AkaiImageParser
         image = AkaiImageParser.__new__(AkaiImageParser)
+        # the synthetic tree is hung into a bare parser object through its internal fields: when those are renamed the
+        # object-level relation is skipped (the image-level CLI round trips remain)
+        probe = AkaiImageParser.__new__(AkaiImageParser)
+        try:
+            AkaiImageParser.__init__(probe, __import__("io").BytesIO(b""))
+        except Exception:
+            probe = None
+        if probe is not None and not all(hasattr(probe, a) for a in ("_partitions_loaded_flag", "_partitions")):
+            raise F.Unavailable("AkaiImageParser._partitions_loaded_flag / _partitions")
         image._partitions_loaded_flag = True
     else:
         from smpl_extract.structural import Image
@@ -247,7 +256,10 @@ def w_obj(pid, tier, seed, job):
         grp = [("leaf", n) for n in rng.sample(["KICK-L", "KICK-L", "KICK L", "KICK L", "KICK -L", "KICK -L", "KICK-R", "KICK R"], rng.randint(4, 7))]
         spec.append(("dir", "DUPS", grp))
         spec += [("leaf", "B-L"), ("leaf", "B L"), ("leaf", "B-L"), ("leaf", "B L")][: rng.choice([0, 4])]
-    check_tree(ctx, spec, akai, rng, 25)
+    try:
+        check_tree(ctx, spec, akai, rng, 25)
+    except F.Unavailable as e:
+        ctx.note("C10: object-level relation parse_path skipped, internal name not available: %s" % e)
     return ctx.dump()
 
 
